@@ -613,8 +613,15 @@ class TaskDispatcher(object):
         # refresh this task dependencies with values got from calc_dep
         values = node.task.values
         len_task_deps = len(waiting_node.task.task_dep)
+        len_wild_deps = len(waiting_node.task.wild_dep)
         old_calc_dep = waiting_node.task.calc_dep.copy()
         waiting_node.task.update_deps(values)
+        # a wildcard delivered by the calc_dep: TaskControl expanded only the
+        # patterns known at start-up
+        for pattern in waiting_node.task.wild_dep[len_wild_deps:]:
+            waiting_node.task.task_dep.extend(
+                name for name in list(self.tasks)
+                if fnmatch.fnmatch(name, pattern))
         TaskControl.add_implicit_task_dep(
             self.targets, waiting_node.task,
             values.get('file_dep', []))
